@@ -739,3 +739,55 @@ def terminal_values_contract():
 
     return Contract(name=f"{MOD}:solve_adaptive_terminal_values", module=MOD, qualname="solve_adaptive_terminal_values", wrap=wrap, ensures=ensures, instances=instances,
                     doc="the terminal-value routine is the last entry of the checkpointed routine on save_at = [t0, t1] with every argument passed through and the suitability warning disabled")
+
+
+# --------------------------------------------------------------------------------------
+# solve_fixed_grid == fold of solver.step over the grid (abstract solver; per grid length)
+# --------------------------------------------------------------------------------------
+
+
+def fixed_grid_fold_contract():
+    """``solve_fixed_grid``: init at grid[0], then exactly one ``solver.step`` per grid interval with dt = the grid
+    increment and the caller's damping, every new state emitted, and ``userfriendly_output`` called with the initial
+    state, the stacked states and the state handed over by ``interpolate_fwd_at_t1(t=grid[-1], final, final)``.
+    Abstract solver (the C02 / C03 contracts say what the real steps compute); per grid length."""
+    MODF = "probdiffeq._ivpsolve.solvers_via_fixed_steps"
+    SEEN = {}
+
+    class Recording(AbsSolver):
+        def userfriendly_output(self, *, solution0, solution, solution1):
+            SEEN.update(solution0=solution0, solution=solution, solution1=solution1)
+            return solution
+
+    def wrap(target):
+        def f(u, grid, damp):
+            sol = target(solver=Recording())(u, grid=grid, damp=damp)
+            s0, s1 = SEEN["solution0"], SEEN["solution1"]
+            return sol.t, sol.num_steps, sol.u, s0.t, s0.num_steps, s0.u, s1.t, s1.num_steps, s1.u
+
+        return f
+
+    def ensures(res, u, grid, damp):
+        ts, ns, data, t0, n0, d0, t1, n1, d1 = res
+        solver = AbsSolver()
+        st = solver.init(grid[0], u, damp)  # memoised stub calls: the same symbols the code obtained
+        cl = [eq("initial_state_time", t0, grid[0]), eq("initial_state_is_solver_init", d0, st.u), eq("initial_state_step_count", n0, 0.0)]
+        N = grid.shape[0] - 1
+        cl.append(holds("one_state_per_grid_interval", jnp.asarray(ts.shape[0] == N)))
+        for k in range(N):
+            st = solver.step(st, grid[k + 1] - grid[k], damp)
+            cl += [eq(f"time_{k + 1}_is_grid_point", ts[k], grid[k + 1]), eq(f"state_{k + 1}_is_one_step_from_state_{k}", data[k], st.u), eq(f"step_count_{k + 1}", ns[k], float(k + 1))]
+        _, handed = solver.interpolate_fwd_at_t1(t=grid[-1], interp_from=st, interp_to=st)
+        cl += [eq("handed_over_state_time", t1, grid[-1]), eq("handed_over_state_is_at_t1_handover_of_the_final_state", d1, handed.step_from.u), eq("handed_over_step_count", n1, float(N))]
+        return cl
+
+    def instances(tier):
+        out = []
+        for N in (1, 3) + ((2, 6) if tier == "thorough" else ()):
+            def make(rng, N=N):
+                return (jnp.asarray(rng.normal(size=(1,))), jnp.asarray(np.cumsum(rng.uniform(0.1, 0.4, size=(N + 1,)))), jnp.asarray(rng.uniform(0.0, 0.2))), {}
+            out.append(Instance(f"intervals={N}", make, names=lambda a, k: {id(a[1]): "grid", id(a[2]): "damp"}))
+        return out
+
+    return Contract(name=f"{MODF}:solve_fixed_grid[fold]", module=MODF, qualname="solve_fixed_grid", wrap=wrap, ensures=ensures, instances=instances,
+                    doc="fixed-grid solve == init, then one solver.step per grid interval (dt = increment, caller's damp), all states emitted, at-t1 hand-over of the final state")
